@@ -140,25 +140,7 @@ func runC10(c *engine.Ctx) {
 	_ = listenersF
 
 	// ---- R2 rollback on partial failure ----
-	c.Rule("R2", "every exit that may carry an error after a successful acquisition passes the matching release, the type's Close, or a deferred rollback registered on that path")
-	entries := 0
-	for _, n := range ptypes {
-		own := methodsOf(p, n)
-		for k, v := range methodsOf(p, base) {
-			own[k] = v
-		}
-		run := p.FuncOf(p.MethodObj("server/proxy", n.Obj().Name(), "Run"))
-		if run == nil {
-			continue
-		}
-		entries++
-		checkRollback(c, tab, "server/proxy."+n.Obj().Name()+".Run", run, own, p.MethodObj("server/proxy", n.Obj().Name(), "Close"))
-	}
-	if f := fn(c, "server/group.TCPGroup.Listen"); f != nil {
-		entries++
-		checkRollback(c, tab, "server/group.TCPGroup.Listen", f, nil, nil)
-	}
-	c.Floor(entries, 9)
+	checkRunRollbacks(c, "R2")
 
 	// ---- R3 registration rollback ----
 	c.Rule("R3", "Control.RegisterProxy: after Run succeeded a failing name registration closes the proxy; the session table insert happens only after the name was registered")
@@ -213,6 +195,142 @@ func runC10(c *engine.Ctx) {
 	// ---- R8 quota, R9 released port = acquired port (shared with C09) ----
 	checkQuota(c, "R8")
 	checkTruePortChain(c, "R9")
+
+	// ---- R10 release closures are queued only after the matching registration succeeded (shared with C13.R2) ----
+	c.Rule("R10", "in server/proxy a closure that un-registers a route, listener or group membership is appended to closeFuncs only on paths where the matching registration returned nil: a refused (duplicate) registration must leave the owner's entry alone")
+	c.Floor(checkCleanupAfterAcquire(c), 4)
+
+	// ---- R11 ----
+	checkQueuedClosureCaptures(c, "R11")
+}
+
+// checkQueuedClosureCaptures: a closure that is stored for later execution (appended to a closeFuncs-like slice field)
+// runs after the function that created it has moved on; a variable it captures by reference must not be written again
+// after the closure was created, otherwise every queued closure acts on the last value (the loop variable idiom:
+// `tmp := cfg` per iteration and capture tmp). A re-executed allocation (per-iteration variable) is a new variable.
+func checkQueuedClosureCaptures(c *engine.Ctx, rule string) {
+	c.Rule(rule, "a closure stored in a slice-of-functions field (release hooks run at Close) captures by reference only variables that are not written again after the closure was created; per-iteration copies are new variables")
+	p := c.P
+	n := 0
+	for _, f := range p.RepoFuncs() {
+		if f.Pkg == nil || !(strings.HasSuffix(f.Pkg.Pkg.Path(), "/server/proxy") || strings.HasSuffix(f.Pkg.Pkg.Path(), "/server/group") || strings.HasSuffix(f.Pkg.Pkg.Path(), "/server")) {
+			continue
+		}
+		f := f
+		engine.ForEachInstr(f, func(in ssa.Instruction) {
+			st, ok := in.(*ssa.Store)
+			if !ok {
+				return
+			}
+			fv, _ := engine.LoadedField(st.Addr)
+			if fv == nil {
+				return
+			}
+			sl, ok := fv.Type().Underlying().(*types.Slice)
+			if !ok {
+				return
+			}
+			if _, isSig := sl.Elem().Underlying().(*types.Signature); !isSig {
+				return
+			}
+			src := engine.Provenance(st.Val, engine.ProvOpts{})
+			for v := range src.Values {
+				mc, ok := v.(*ssa.MakeClosure)
+				if !ok || mc.Parent() != f {
+					continue
+				}
+				n++
+				bad := ""
+				for _, b := range mc.Bindings {
+					al, ok := b.(*ssa.Alloc)
+					if !ok {
+						continue
+					}
+					if w := writtenAfter(mc, al); w != nil {
+						bad = fmt.Sprintf("captured variable %s is written again at %s after the closure was queued: when the hook finally runs it sees the last value, not the one it was created for", al.Comment, p.Pos(posOf(w)))
+					}
+				}
+				key := fmt.Sprintf("%s>queued-closure@%s", p.FuncName(f), p.FuncName(mc.Fn.(*ssa.Function)))
+				if bad != "" {
+					c.Violate(key, mc.Pos(), nil, "%s", bad)
+				} else {
+					c.Hold(key, mc.Pos(), len(mc.Bindings), nil, "queued closure captures only variables that stay unchanged")
+				}
+			}
+		})
+	}
+	c.Floor(n, 6)
+}
+
+// writtenAfter returns a store to the variable al (or one of its fields) that can execute after the closure mc was
+// created without al being allocated anew in between.
+func writtenAfter(mc *ssa.MakeClosure, al *ssa.Alloc) ssa.Instruction {
+	writes := map[ssa.Instruction]bool{}
+	var collect func(addr ssa.Value, d int)
+	collect = func(addr ssa.Value, d int) {
+		if d > 4 || addr.Referrers() == nil {
+			return
+		}
+		for _, r := range *addr.Referrers() {
+			switch x := r.(type) {
+			case *ssa.Store:
+				if x.Addr == addr {
+					writes[x] = true
+				}
+			case *ssa.FieldAddr:
+				collect(x, d+1)
+			case *ssa.IndexAddr:
+				collect(x, d+1)
+			}
+		}
+	}
+	collect(al, 0)
+	if len(writes) == 0 {
+		return nil
+	}
+	// forward reachability from the instruction after mc, cut at the allocation of al
+	scan := func(instrs []ssa.Instruction) (ssa.Instruction, bool) {
+		for _, in := range instrs {
+			if in == ssa.Instruction(al) {
+				return nil, true // re-allocated: a new variable
+			}
+			if writes[in] {
+				return in, true
+			}
+		}
+		return nil, false
+	}
+	blk := mc.Block()
+	idx := 0
+	for i, in := range blk.Instrs {
+		if in == ssa.Instruction(mc) {
+			idx = i + 1
+		}
+	}
+	if w, stop := scan(blk.Instrs[idx:]); w != nil {
+		return w
+	} else if stop {
+		return nil
+	}
+	seen := map[*ssa.BasicBlock]bool{}
+	work := append([]*ssa.BasicBlock{}, blk.Succs...)
+	for len(work) > 0 {
+		b := work[0]
+		work = work[1:]
+		if seen[b] {
+			continue
+		}
+		seen[b] = true
+		w, stop := scan(b.Instrs)
+		if w != nil {
+			return w
+		}
+		if stop {
+			continue
+		}
+		work = append(work, b.Succs...)
+	}
+	return nil
 }
 
 // queuedClosures finds closures that own code stores into a []func() field which the Close code invokes.
@@ -904,4 +1022,52 @@ func checkGuardedRelease(c *engine.Ctx, tab *resTable) {
 		})
 	}
 	c.Floor(n, 3)
+}
+
+// checkRunRollbacks (C10.R2, shared as C11.R8): every exit of a server proxy's Run (and of TCPGroup.Listen) that may
+// carry an error after a successful acquisition passes the matching release, the type's Close, or a deferred rollback.
+func checkRunRollbacks(c *engine.Ctx, rule string) {
+	p := c.P
+	tab := buildResTable(c)
+	proxyIface := p.Named("server/proxy", "Proxy")
+	base := p.Named("server/proxy", "BaseProxy")
+	if proxyIface == nil || base == nil {
+		c.Missing("server/proxy.Proxy", "proxy interface not found")
+		return
+	}
+	it := proxyIface.Underlying().(*types.Interface)
+	pk := p.Pkg("server/proxy")
+	var ptypes []*types.Named
+	for _, name := range pk.Types.Scope().Names() {
+		tn, ok := pk.Types.Scope().Lookup(name).(*types.TypeName)
+		if !ok {
+			continue
+		}
+		n, ok := tn.Type().(*types.Named)
+		if !ok || types.IsInterface(n) || n == base {
+			continue
+		}
+		if types.Implements(types.NewPointer(n), it) {
+			ptypes = append(ptypes, n)
+		}
+	}
+	c.Rule(rule, "every exit that may carry an error after a successful acquisition passes the matching release, the type's Close, or a deferred rollback registered on that path")
+	entries := 0
+	for _, n := range ptypes {
+		own := methodsOf(p, n)
+		for k, v := range methodsOf(p, base) {
+			own[k] = v
+		}
+		run := p.FuncOf(p.MethodObj("server/proxy", n.Obj().Name(), "Run"))
+		if run == nil {
+			continue
+		}
+		entries++
+		checkRollback(c, tab, "server/proxy."+n.Obj().Name()+".Run", run, own, p.MethodObj("server/proxy", n.Obj().Name(), "Close"))
+	}
+	if f := fn(c, "server/group.TCPGroup.Listen"); f != nil {
+		entries++
+		checkRollback(c, tab, "server/group.TCPGroup.Listen", f, nil, nil)
+	}
+	c.Floor(entries, 9)
 }
